@@ -69,8 +69,14 @@ class Client(threading.Thread):
                     hostport = self.url[len("http://"):].rstrip("/")
                     sk = socket.create_connection((hostport.split(":")[0], int(hostport.split(":")[1])), timeout=BOUND * 0.6)
                     sk.settimeout(BOUND * 0.6)
-                body = json.dumps({"jsonrpc": "2.0", "id": 1, "method": "echo", "params": [self.token]}).encode()
-                sk.sendall(b"POST / HTTP/1.0\r\nContent-Type: application/json\r\nContent-Length: " + str(len(body) + 25).encode() + b"\r\n\r\n" + body[:-5])
+                if sum(map(ord, self.token)) % 2:
+                    body = json.dumps({"jsonrpc": "2.0", "id": 1, "method": "echo", "params": [self.token]}).encode()
+                    sk.sendall(b"POST / HTTP/1.0\r\nContent-Type: application/json\r\nContent-Length: " + str(len(body) + 25).encode() + b"\r\n\r\n" + body[:-5])
+                else:
+                    # the announced length counts characters instead of bytes: what the server reads ends inside a
+                    # multi-byte character (and is all it is going to get)
+                    body = json.dumps({"jsonrpc": "2.0", "id": 1, "method": "echo", "params": [self.token + "\u00e9"]}, ensure_ascii=False).encode("utf-8")
+                    sk.sendall(b"POST / HTTP/1.0\r\nContent-Type: application/json\r\nContent-Length: " + str(len(body) - 4).encode() + b"\r\n\r\n" + body[:-4])
                 sk.shutdown(socket.SHUT_WR)
                 raw = b""
                 try:
@@ -113,6 +119,11 @@ class Client(threading.Thread):
                 odd = self.token + "\udc80\ud83d"
                 v = p.echo2(self.token, odd)
                 v = self.token if v == odd else "surrogate-mangled:%r" % (v,)
+            elif self.kind == "noargs":
+                # calls without any argument (the request has no params member in 2.0): each one is served with its own,
+                # empty, parameter list whatever the application did with the list of an earlier request
+                got = [p.whoami(), p.echo(self.token), p.whoami()]
+                v = self.token if got == [1, self.token, 1] else "params-leaked-between-requests:%r" % (got,)
             elif self.kind == "call":
                 v = p.echo(self.token)
             elif self.kind == "slow":
@@ -203,6 +214,19 @@ def run_word(word, cls, transport, poolcfg, rnd, rundir, counter, plan=None):
         srv = SimpleJSONRPCServer(addr, **kw)
     for fn, name in ((echo, "echo"), (echo2, "echo2"), (slow, "slow"), (note, "note"), (boom, "boom"), (boomhard, "boomhard"), (restricted, "restricted")):
         srv.register_function(fn, name)
+
+    class App(object):
+        """application dispatcher (the documented _dispatch protocol) that completes the positional parameters it is
+        given - in place - with the context it adds for its handlers"""
+        def _dispatch(self, method, params):
+            if method != "whoami":
+                raise Exception('method "%s" is not supported' % method)
+            if isinstance(params, list):
+                params.append("ctx")
+                count("whoami")
+                return len(params)
+            return -1
+    srv.register_instance(App())
     accepted = [0]
     orig_pr = srv.process_request
 
@@ -221,7 +245,7 @@ def run_word(word, cls, transport, poolcfg, rnd, rundir, counter, plan=None):
             calls.append({"op": "S", "returned": True, "secs": 0.0, "exc": ""})
         elif op == "R":
             batch = []
-            kinds = plan_in.pop(0) if plan_in else [[rnd.choice(["call", "call", "slow", "notify", "batch", "invalid", "fail", "truncated", "failhard", "rawid", "surrogate"]),
+            kinds = plan_in.pop(0) if plan_in else [[rnd.choice(["call", "call", "slow", "notify", "batch", "invalid", "fail", "truncated", "failhard", "rawid", "surrogate", "noargs"]),
                                                     rnd.choice([1.0, 2.0])] for _ in range(rnd.randint(1, 5))]
             plan_out.append(kinds)
             for kind, ver in kinds:
